@@ -12,6 +12,7 @@ let show_header h =
     (n_to_string h.h_chash) (n_to_string h.h_count) (String.concat "," (List.map show_chunk h.h_chunks))
 let opt f s = if s = "-" then None else Some (f s)
 let base = ref ""
+let cur_pins = ref no_pins
 let open_file p (fs : string) =
   let f = bytes_of_string fs in
   let r = match parse_impl h_stub p f with
@@ -23,15 +24,18 @@ let () = iter_lines (fun line ->
   | ["O"; pt; pd; ps; hex] ->
       let p = { p_type = opt n_of_string pt; p_digest = opt bytes_of_hex pd; p_size = opt n_of_string ps } in
       open_file p (string_of_hex hex)
-  | ["B"; hex] -> base := string_of_hex hex; print_endline "BASE | SPEC -"
+  | ["B"; hex] -> base := string_of_hex hex; cur_pins := no_pins; print_endline "BASE | SPEC -"
+  | ["P"; pt; pd; ps] ->
+      cur_pins := { p_type = opt n_of_string pt; p_digest = opt bytes_of_hex pd; p_size = opt n_of_string ps };
+      print_endline "PINS | SPEC -"
   | ["m"; pos; v] ->   (* substitute one byte of the base file *)
       let b = Bytes.of_string !base in
       Bytes.set b (int_of_string pos) (Char.chr (int_of_string v));
-      open_file no_pins (Bytes.to_string b)
+      open_file !cur_pins (Bytes.to_string b)
   | ["i"; pos; v] ->   (* insert a byte *)
       let k = int_of_string pos in
-      open_file no_pins (String.sub !base 0 k ^ String.make 1 (Char.chr (int_of_string v)) ^ String.sub !base k (String.length !base - k))
+      open_file !cur_pins (String.sub !base 0 k ^ String.make 1 (Char.chr (int_of_string v)) ^ String.sub !base k (String.length !base - k))
   | ["x"; pos] ->      (* delete a byte *)
       let k = int_of_string pos in
-      open_file no_pins (String.sub !base 0 k ^ String.sub !base (k + 1) (String.length !base - k - 1))
+      open_file !cur_pins (String.sub !base 0 k ^ String.sub !base (k + 1) (String.length !base - k - 1))
   | _ -> print_endline "BADCASE")
